@@ -16,12 +16,12 @@ smoothness group (`armijo_accepts_small_steps` … `pgdb_projected_gradient_rule
 `QModel/C11.lean` instantiated at `K = ℝ`, `V = E`, `dot = ⟪·,·⟫`, `sqrt = Real.sqrt`; unbounded in dimension, iteration
 count, history window and all thresholds.
 
-Finite stopping with explicit bounds is proved for all four rules with window 1 (`pgdb_loss_rule_iterations`,
-`pgdb_step_size_rule_iterations`, `pgdb_projected_gradient_rule_iterations` — the last one on `L`-smooth losses) and for the two
-loss-difference rules with any window (`pgdb_loss_rule_iterations_window`).  Not proved: iteration bounds for the step-size and
-projected-gradient rules with windows > 1 (`stop_mode_guarantees` says what a stop guarantees for any window); that the coded
-iteration limit (1000) exceeds these bounds — with the default `eps ≈ 10⁻¹⁴` it does not, so a default run may end on the limit;
-momentum / FISTA optimality (C10 proves feasibility only); anything about SCS.
+Finite stopping with explicit iteration bounds is proved for all four rules with ANY window `n ≥ 1`
+(`pgdb_loss_rule_iterations_window`: `1 + n(f₀ − f_low)/eps`; `pgdb_step_size_rule_iterations_window`:
+`1 + n²(f₀ − f_low)/(γμ eps²)`; `pgdb_projected_gradient_rule_iterations_window` on `L`-smooth losses, `c` for `γμ`).
+Exact-data optimality of the truth for the relative entropy: `relative_entropy_exact_data_minimiser` (Gibbs).
+Not proved: that the coded iteration limit (1000) exceeds these bounds — with the default `eps ≈ 10⁻¹⁴` it does not, so a default
+run may end on the limit; momentum / FISTA optimality (C10 proves feasibility only); anything about SCS.
 Known defect mirrored by a negation witness: `pg_descent_dir_fails_via_stacked` (finding D13).
 -/
 set_option linter.unusedSectionVars false
@@ -993,6 +993,216 @@ theorem pgdb_loss_rule_iterations_window {P : E → E} {C : Set E} (hC : Convex 
       have hm0 : (0 : ℝ) ≤ (m : ℝ) + 1 := by positivity
       nlinarith
 
+/-- loop invariant for a rule whose error value `e` satisfies `0 ≤ e` and `f(x_next) ≤ f(x) − κ e²` at every step, with ANY window
+`n = m + 1`: the potential `(#continued)·κ eps²/n + n·f(x) + κ·pot m (squared errors, most recent first)` never exceeds `n·F0`
+(Cauchy–Schwarz: a window sum `> eps` forces the window's sum of squares above `eps²/n`) -/
+theorem pgdbLoop_window_potential_sq {P : E → E} {C : Set E} (hC : Convex ℝ C) (hP : IsProjOn P C) (f : E → ℝ) (g : E → E)
+    {mu gamma : ℝ} (eps : ℝ) (heps : 0 ≤ eps) (mode : StopMode) (kappa : ℝ) (hk : 0 ≤ kappa) (m btFuel : Nat)
+    (hdec : ∀ x ∈ C, ∀ it, pgdbStep P f g ip Real.sqrt mu gamma mode btFuel x = some it →
+      0 ≤ it.err ∧ f it.xNext ≤ f x - kappa * it.err ^ 2) (F0 : ℝ) :
+    ∀ (fuel : Nat) (x : E) (errs : List ℝ) (rest : List E) (res : List E × List ℝ), x ∈ C → (∀ v ∈ errs, 0 ≤ v) →
+      (rest.length : ℝ) * (kappa * eps ^ 2 / ((m : ℝ) + 1)) + ((m : ℝ) + 1) * f x
+          + kappa * pot m (errs.reverse.map (· ^ 2)) ≤ ((m : ℝ) + 1) * F0 →
+      pgdbLoop P f g ip Real.sqrt mu gamma eps mode (m + 1) btFuel fuel x errs (x :: rest) = some res →
+      ∃ v vs, res.1 = v :: vs ∧
+        ((vs.length - 1 : Nat) : ℝ) * (kappa * eps ^ 2 / ((m : ℝ) + 1)) + ((m : ℝ) + 1) * f v ≤ ((m : ℝ) + 1) * F0 := by
+  have hm1 : (0 : ℝ) < (m : ℝ) + 1 := by positivity
+  have hq : 0 ≤ kappa * eps ^ 2 / ((m : ℝ) + 1) := by positivity
+  have hsqpos : ∀ l : List ℝ, ∀ v ∈ l.map (· ^ 2), 0 ≤ v := by
+    intro l v hv
+    obtain ⟨w, _, rfl⟩ := List.mem_map.1 hv
+    positivity
+  intro fuel
+  induction fuel with
+  | zero =>
+    intro x errs rest res _ _ hinv h
+    simp only [pgdbLoop, Option.some.injEq] at h
+    subst h
+    refine ⟨x, rest, rfl, ?_⟩
+    have h1 : ((rest.length - 1 : Nat) : ℝ) ≤ (rest.length : ℝ) := by exact_mod_cast Nat.sub_le _ _
+    have h2 := pot_nonneg m (errs.reverse.map (· ^ 2)) (hsqpos _)
+    nlinarith
+  | succ fuel ih =>
+    intro x errs rest res hx hpos hinv h
+    unfold pgdbLoop at h
+    cases hs : pgdbStep P f g ip Real.sqrt mu gamma mode btFuel x with
+    | none => simp [hs] at h
+    | some it =>
+      obtain ⟨hmem, _⟩ := pgdb_step_feasible hC P (fun w => (hP w).1) f g ip Real.sqrt mu gamma mode btFuel x hx it hs
+      obtain ⟨he0, hdecr⟩ := hdec x hx it hs
+      have hpos' : ∀ v ∈ errs ++ [it.err], 0 ≤ v := by
+        intro v hv
+        rcases List.mem_append.1 hv with hv | hv
+        · exact hpos v hv
+        · simp at hv; rw [hv]; exact he0
+      have hrev : (errs ++ [it.err]).reverse.map (· ^ 2) = it.err ^ 2 :: errs.reverse.map (· ^ 2) := by simp
+      have hstep := pot_step m (it.err ^ 2) (errs.reverse.map (· ^ 2))
+      -- window sums: of the errors and of their squares
+      have hW1 : windowSum (errs ++ [it.err]) (m + 1) = lsum ((it.err :: errs.reverse).take (m + 1)) := by
+        rw [windowSum_eq_take_reverse]; simp
+      have hCS := sq_lsum_take_le (it.err :: errs.reverse) (m + 1)
+      simp only [List.map_cons] at hCS
+      have hW2nn : 0 ≤ lsum ((it.err ^ 2 :: errs.reverse.map (· ^ 2)).take (m + 1)) :=
+        lsum_nonneg' _ (fun v hv => by
+          have hv' := List.mem_of_mem_take hv
+          rcases List.mem_cons.1 hv' with rfl | hv'
+          · positivity
+          · exact hsqpos _ v hv')
+      have hdrop : ((m : ℝ) + 1) * f it.xNext + kappa * pot m (it.err ^ 2 :: errs.reverse.map (· ^ 2))
+          ≤ ((m : ℝ) + 1) * f x + kappa * pot m (errs.reverse.map (· ^ 2))
+            - kappa * lsum ((it.err ^ 2 :: errs.reverse.map (· ^ 2)).take (m + 1)) := by
+        have e1 : pot m (it.err ^ 2 :: errs.reverse.map (· ^ 2))
+            = pot m (errs.reverse.map (· ^ 2)) + ((m : ℝ) + 1) * it.err ^ 2
+              - lsum ((it.err ^ 2 :: errs.reverse.map (· ^ 2)).take (m + 1)) := by linarith
+        rw [e1]
+        have := mul_le_mul_of_nonneg_left hdecr hm1.le
+        nlinarith
+      simp only [hs] at h
+      by_cases hd : isDoing (errs ++ [it.err]) (m + 1) eps = true
+      · rw [if_pos hd] at h
+        have hgt : eps < windowSum (errs ++ [it.err]) (m + 1) := by
+          unfold isDoing at hd; simpa using hd
+        rw [hW1] at hgt
+        have hsq : eps ^ 2 < (lsum ((it.err :: errs.reverse).take (m + 1))) ^ 2 := by nlinarith
+        have hW2 : eps ^ 2 / ((m : ℝ) + 1) < lsum ((it.err ^ 2 :: errs.reverse.map (· ^ 2)).take (m + 1)) := by
+          rw [div_lt_iff₀ hm1]
+          have : ((m + 1 : Nat) : ℝ) = (m : ℝ) + 1 := by push_cast; ring
+          rw [this] at hCS
+          nlinarith
+        have hkW : kappa * eps ^ 2 / ((m : ℝ) + 1) ≤ kappa * lsum ((it.err ^ 2 :: errs.reverse.map (· ^ 2)).take (m + 1)) := by
+          rw [mul_div_assoc]
+          exact mul_le_mul_of_nonneg_left hW2.le hk
+        have hinv' : (((x :: rest).length : Nat) : ℝ) * (kappa * eps ^ 2 / ((m : ℝ) + 1)) + ((m : ℝ) + 1) * f it.xNext
+            + kappa * pot m ((errs ++ [it.err]).reverse.map (· ^ 2)) ≤ ((m : ℝ) + 1) * F0 := by
+          rw [hrev]
+          simp only [List.length_cons]; push_cast
+          nlinarith
+        exact ih it.xNext _ _ res hmem hpos' hinv' h
+      · rw [if_neg hd] at h
+        injection h with h; subst h
+        refine ⟨it.xNext, x :: rest, rfl, ?_⟩
+        simp only [List.length_cons, Nat.add_sub_cancel]
+        have h2 := pot_nonneg m (it.err ^ 2 :: errs.reverse.map (· ^ 2)) (by
+          intro v hv
+          rcases List.mem_cons.1 hv with rfl | hv
+          · positivity
+          · exact hsqpos _ v hv)
+        have hkW0 : 0 ≤ kappa * lsum ((it.err ^ 2 :: errs.reverse.map (· ^ 2)).take (m + 1)) := mul_nonneg hk hW2nn
+        nlinarith
+
+/-- per-step facts for the step-size rule: the error value is the step length and the loss drops by at least `γ μ ‖Δx‖²` -/
+theorem pgdb_step_size_error {P : E → E} {C : Set E} (hC : Convex ℝ C) (hP : IsProjOn P C) (f : E → ℝ) (g : E → E)
+    {mu gamma : ℝ} (hmu : 0 < mu) (hgam : 0 ≤ gamma) (btFuel : Nat) {x : E} (hx : x ∈ C) (it : PgdbIter ℝ E)
+    (h : pgdbStep P f g ip Real.sqrt mu gamma .sumAbsDiffVar btFuel x = some it) :
+    0 ≤ it.err ∧ f it.xNext ≤ f x - gamma * mu * it.err ^ 2 := by
+  obtain ⟨_, ha0, ha1, _, hxn, _⟩ :=
+    pgdb_step_feasible hC P (fun w => (hP w).1) f g ip Real.sqrt mu gamma .sumAbsDiffVar btFuel x hx it h
+  obtain ⟨hdec, _, _⟩ := pgdb_step_decrease hC hP f g Real.sqrt hmu hgam .sumAbsDiffVar btFuel hx it h
+  have herr : it.err = it.alpha * ‖it.y‖ := by
+    have e : it.err = errorValue .sumAbsDiffVar f Real.sqrt (fun v => ip v v) x (x + it.alpha • it.y) it.y := by
+      unfold pgdbStep at h
+      cases hb : backtrack f g ip x (pgdbDir P g mu x) gamma btFuel 1 with
+      | none => simp [hb] at h
+      | some a => simp only [hb, Option.some.injEq] at h; subst h; rfl
+    rw [e, (stop_criteria_meaning f x it.y it.alpha ha0.le).2.2.1]
+  refine ⟨by rw [herr]; exact mul_nonneg ha0.le (norm_nonneg _), ?_⟩
+  rw [herr]
+  have hy : 0 ≤ ‖it.y‖ ^ 2 := by positivity
+  have h2 : (it.alpha * ‖it.y‖) ^ 2 ≤ it.alpha * ‖it.y‖ ^ 2 := by
+    have : it.alpha ^ 2 ≤ it.alpha := by nlinarith
+    nlinarith
+  have h3 : 0 ≤ gamma * mu := mul_nonneg hgam hmu.le
+  nlinarith
+
+/-- C11.pgdb_step_size_rule_iterations_window: the step-size rule `sum_absolute_difference_variable` with ANY window `n ≥ 1` and
+threshold `eps ≥ 0`: `(iterations − 1) · γ μ eps² / n ≤ n (f(x₀) − f_low)`, i.e. at most `1 + n² (f(x₀) − f_low)/(γ μ eps²)`
+iterations.  No smoothness assumption. -/
+theorem pgdb_step_size_rule_iterations_window {P : E → E} {C : Set E} (hC : Convex ℝ C) (hP : IsProjOn P C) (f : E → ℝ)
+    (g : E → E) {mu gamma : ℝ} (eps : ℝ) (heps : 0 ≤ eps) (hmu : 0 < mu) (hgam : 0 ≤ gamma) (numHist : Nat) (hn : 1 ≤ numHist)
+    (btFuel maxIter : Nat) {xStart : E} (hs : xStart ∈ C) (x : E) (hist : List E) (errs : List ℝ)
+    (h : pgdbOptimize P f g ip Real.sqrt mu gamma eps .sumAbsDiffVar numHist btFuel maxIter xStart = some (x, hist, errs))
+    {fLow : ℝ} (hlow : fLow ≤ f x) :
+    ((hist.length - 2 : Nat) : ℝ) * (gamma * mu * eps ^ 2 / (numHist : ℝ)) ≤ (numHist : ℝ) * (f xStart - fLow) := by
+  obtain ⟨m, rfl⟩ : ∃ m, numHist = m + 1 := ⟨numHist - 1, by omega⟩
+  unfold pgdbOptimize at h
+  cases hl : pgdbLoop P f g ip Real.sqrt mu gamma eps .sumAbsDiffVar (m + 1) btFuel maxIter xStart [] [xStart] with
+  | none => simp [hl] at h
+  | some res =>
+    obtain ⟨v, vs, hres, hinv⟩ := pgdbLoop_window_potential_sq hC hP f g eps heps .sumAbsDiffVar (gamma * mu)
+      (mul_nonneg hgam hmu.le) m btFuel
+      (fun x hx it hit => pgdb_step_size_error hC hP f g hmu hgam btFuel hx it hit) (f xStart) maxIter
+      xStart [] [] res hs (by simp) (by cases m <;> simp [pot]) hl
+    obtain ⟨l, es⟩ := res
+    simp only at hres
+    subst hres
+    simp only [hl] at h
+    by_cases hm : maxIter = 0
+    · simp [hm] at h
+    · simp only [hm, if_false, Option.some.injEq, Prod.mk.injEq] at h
+      obtain ⟨rfl, rfl, _⟩ := h
+      have : (v :: vs).length - 2 = vs.length - 1 := by simp
+      rw [this]
+      push_cast
+      have hm0 : (0 : ℝ) ≤ (m : ℝ) + 1 := by positivity
+      nlinarith
+
+/-- C11.pgdb_projected_gradient_rule_iterations_window (convex `L`-smooth case on `C`): the projected-gradient rule with ANY window
+`n ≥ 1`: `(iterations − 1) · c eps² / n ≤ n (f(x₀) − f_low)` with `c = γ μ min(1,(1−γ)μ/L)`. -/
+theorem pgdb_projected_gradient_rule_iterations_window {P : E → E} {C : Set E} (hC : Convex ℝ C) (hP : IsProjOn P C)
+    {f : E → ℝ} {g : E → E} {Lc : ℝ} (hL : 0 < Lc)
+    (hsm : ∀ u ∈ C, ∀ v ∈ C, f v ≤ f u + ⟪g u, v - u⟫ + Lc / 2 * ‖v - u‖ ^ 2) {mu gamma : ℝ} (eps : ℝ) (heps : 0 ≤ eps)
+    (hmu : 0 < mu) (hgam0 : 0 < gamma) (hgam1 : gamma < 1) (numHist : Nat) (hn : 1 ≤ numHist) (btFuel maxIter : Nat)
+    {xStart : E} (hs : xStart ∈ C) (x : E) (hist : List E) (errs : List ℝ)
+    (h : pgdbOptimize P f g ip Real.sqrt mu gamma eps .sumAbsDiffProjGrad numHist btFuel maxIter xStart = some (x, hist, errs))
+    {fLow : ℝ} (hlow : fLow ≤ f x) :
+    ((hist.length - 2 : Nat) : ℝ) * (gamma * mu * min 1 ((1 - gamma) * mu / Lc) * eps ^ 2 / (numHist : ℝ))
+      ≤ (numHist : ℝ) * (f xStart - fLow) := by
+  obtain ⟨m, rfl⟩ : ∃ m, numHist = m + 1 := ⟨numHist - 1, by omega⟩
+  have hc : 0 ≤ gamma * mu * min 1 ((1 - gamma) * mu / Lc) := by
+    have : 0 < 1 - gamma := by linarith
+    have : 0 ≤ min 1 ((1 - gamma) * mu / Lc) := le_min zero_le_one (by positivity)
+    positivity
+  have hdec : ∀ x ∈ C, ∀ it, pgdbStep P f g ip Real.sqrt mu gamma .sumAbsDiffProjGrad btFuel x = some it →
+      0 ≤ it.err ∧ f it.xNext ≤ f x - gamma * mu * min 1 ((1 - gamma) * mu / Lc) * it.err ^ 2 := by
+    intro x hx it hit
+    obtain ⟨_, ha0, _, _, _, _⟩ :=
+      pgdb_step_feasible hC P (fun w => (hP w).1) f g ip Real.sqrt mu gamma .sumAbsDiffProjGrad btFuel x hx it hit
+    have herr : it.err = ‖it.y‖ := by
+      have e : it.err = errorValue .sumAbsDiffProjGrad f Real.sqrt (fun v => ip v v) x (x + it.alpha • it.y) it.y := by
+        unfold pgdbStep at hit
+        cases hb : backtrack f g ip x (pgdbDir P g mu x) gamma btFuel 1 with
+        | none => simp [hb] at hit
+        | some a => simp only [hb, Option.some.injEq] at hit; subst hit; rfl
+      rw [e, (stop_criteria_meaning f x it.y it.alpha ha0.le).2.2.2]
+    rw [herr]
+    exact ⟨norm_nonneg _, (pgdb_step_alpha_lower_bound hC hP hL hmu hgam0 hgam1 Real.sqrt .sumAbsDiffProjGrad btFuel hx
+      (hsm x hx) it hit).2⟩
+  unfold pgdbOptimize at h
+  cases hl : pgdbLoop P f g ip Real.sqrt mu gamma eps .sumAbsDiffProjGrad (m + 1) btFuel maxIter xStart [] [xStart] with
+  | none => simp [hl] at h
+  | some res =>
+    obtain ⟨v, vs, hres, hinv⟩ := pgdbLoop_window_potential_sq hC hP f g eps heps .sumAbsDiffProjGrad _ hc m btFuel hdec
+      (f xStart) maxIter xStart [] [] res hs (by simp) (by cases m <;> simp [pot]) hl
+    obtain ⟨l, es⟩ := res
+    simp only at hres
+    subst hres
+    simp only [hl] at h
+    by_cases hm : maxIter = 0
+    · simp [hm] at h
+    · simp only [hm, if_false, Option.some.injEq, Prod.mk.injEq] at h
+      obtain ⟨rfl, rfl, _⟩ := h
+      have : (v :: vs).length - 2 = vs.length - 1 := by simp
+      rw [this]
+      push_cast
+      have hm0 : (0 : ℝ) ≤ (m : ℝ) + 1 := by positivity
+      nlinarith
+
+/-- the potential of a two-entry window over squared errors, and the Cauchy–Schwarz step it rests on -/
+example : pot 1 ([4, 9] : List ℝ) = 4 ∧ (lsum ([2, 3] : List ℝ)) ^ 2 ≤ (2 : ℝ) * lsum (([2, 3] : List ℝ).map (· ^ 2)) := by
+  constructor
+  · simp [pot]
+  · norm_num [lsum]
+
 example : sumSqResiduals (fun z : ℝ => max z 0) (fun u => 2 * u) 1 ([0, 1] : List ℝ) = 1 := by
   simp [sumSqResiduals, pgdbDir]
 
@@ -1139,6 +1349,47 @@ theorem cvx_re_same_minimisers (log : K → K) (eps n : K) (hn : n ≠ 0) (S : N
     have : (0 : K) < (S : K) := Nat.cast_pos.2 hS
     positivity
   exact mul_le_mul_iff_of_pos_left hpos
+
+end cvx
+
+/-- C11.relative_entropy_exact_data_minimiser: Gibbs' inequality for the relative-entropy objective as modelled (`relEnt`,
+`plainRelativeEntropy`, natural logarithm, zero threshold `0`): for one schedule with data `q` and model distribution `p`
+(non-negative, `p_j > 0` wherever `q_j > 0`, `Σ p ≤ Σ q` — e.g. both normalised), `relEnt ≥ Σ q − Σ p ≥ 0`, with value `0` at
+`p = q`.  Hence under exact data the true object (whose model distributions ARE the data) attains the global minimum `0` of the
+identity-weight relative entropy over all points with non-negative normalised model distributions — in particular over the
+physical set. -/
+theorem relative_entropy_exact_data_minimiser (p q : List ℝ) (hlen : p.length = q.length)
+    (hall : ∀ ab ∈ p.zip q, 0 ≤ ab.1 ∧ 0 ≤ ab.2 ∧ ((0 : ℝ) < ab.2 → 0 < ab.1)) (hsum : lsum p ≤ lsum q) :
+    relEnt Real.log 0 q q = 0 ∧ relEnt Real.log 0 q q ≤ relEnt Real.log 0 p q := by
+  have h0 := relEnt_self q
+  have h1 := relEnt_ge p q hlen hall
+  exact ⟨h0, by rw [h0]; linarith⟩
+
+/-- the whole objective: a sum over schedules of such terms is minimised (value `0`) by the data themselves -/
+theorem plain_relative_entropy_exact_data (ps qs : List (List ℝ))
+    (hrow : ∀ pq ∈ ps.zip qs, pq.1.length = pq.2.length ∧
+      (∀ ab ∈ pq.1.zip pq.2, 0 ≤ ab.1 ∧ 0 ≤ ab.2 ∧ ((0 : ℝ) < ab.2 → 0 < ab.1)) ∧ lsum pq.1 ≤ lsum pq.2) :
+    plainRelativeEntropy Real.log 0 qs qs = 0 ∧ 0 ≤ plainRelativeEntropy Real.log 0 ps qs := by
+  constructor
+  · have hself : ∀ l : List (List ℝ), lsum ((l.zip l).map fun pq => relEnt Real.log 0 pq.1 pq.2) = 0 := by
+      intro l
+      induction l with
+      | nil => simp [lsum]
+      | cons b t ih => simp only [List.zip_cons_cons, List.map_cons, lsum_cons', relEnt_self, zero_add]; exact ih
+    exact hself qs
+  · unfold plainRelativeEntropy
+    apply lsum_nonneg'
+    intro v hv
+    obtain ⟨pq, hpq, rfl⟩ := List.mem_map.1 hv
+    obtain ⟨h1, h2, h3⟩ := hrow pq hpq
+    have := relEnt_ge pq.1 pq.2 h1 h2
+    linarith
+
+example : relEnt Real.log 0 [1 / 2, 1 / 2] [1, 0] = Real.log 2 := by
+  simp [relEnt, lsum, Real.log_inv]
+
+section cvx
+variable {K : Type} [Field K] [LinearOrder K] [IsStrictOrderedRing K]
 
 /-- relative entropy with a rational stand-in for `log` (`log v := v − 1`), two schedules, one zero entry in the data -/
 example : cvxRelativeEntropy (fun v : ℚ => v - 1) 0 (numRatios [10, 10]) [[1/2, 1/2], [1/4, 3/4]] [[1, 0], [1/2, 1/2]] = 1 / 4 := by
